@@ -6,3 +6,4 @@ open Just.C11
 #print axioms lexer_error_never_invalid_line
 #print axioms lexer_asserts_hold
 #print axioms main_loop_idle
+#print axioms lexer_no_internal_error
